@@ -277,6 +277,22 @@ def obligations(r, tier, seed):
             k.implies(spec, res, "|x-y| / max(|x|, tol) < tol => equals")
         obs.append(Ob("C17/internal/BasePose.equals-exact-formula/%s" % T, exact, tier="internal", funcs=FUNCS[:1], light=True))
 
+    # ---- landmark edges that differ ONLY in the type of the offset (identical numbers: an R^3 point and an SE(2) pose are both
+    #      three numbers): different types, unequal in both directions
+    def offset_types(k):
+        r_ = k.r
+        tol = k.pos("tol")
+        x, y, t = k.real("ox"), k.real("oy"), k.small("ot", 1)
+        info, est = k.sym_matrix("O", 2), k.pose("R2", "z")
+        a = r_.EdgeLandmark([1, 2], info, est, r_.PoseSE2([x, y], t), 0)
+        b = r_.EdgeLandmark([1, 2], k.np.array(info), est.copy(), r_.PoseR3([x, y, t]), 0)
+        c = r_.EdgeLandmark([1, 2], k.np.array(info), est.copy(), r_.PoseR2([x, y]), 0)
+        for p_, q_, lab in ((a, b, "SE2 offset vs R3 offset"), (b, a, "R3 offset vs SE2 offset"), (a, c, "SE2 offset vs R2 offset"), (c, a, "R2 offset vs SE2 offset")):
+            res = k.returns(lambda p_=p_, q_=q_: p_.equals(q_, tol), "%s returns" % lab)
+            if res is not None:
+                k.holds(neg(k, res), "%s: different offset types => unequal" % lab)
+    obs.append(Ob("C17/structure/landmark-edges-differing-in-offset-type-only", offset_types, funcs=FUNCS, light=True))
+
     # ---- an edge versus an edge of a SUBCLASS of its class with identical data: different types, unequal in BOTH directions
     def subclass_pairs(k):
         r_ = k.r
